@@ -111,6 +111,8 @@
   X(UNC_BEFORE_SWITCH, W) \
   X(UNC_CB_BEFORE_PUB, W) \
   X(UNC_SIG_SPIN, S) \
+  X(SPINLOCK_SPIN, S) \
+  X(SPINLOCK_WAITED, C) \
   X(UNC_SIG_AFTER_CLEAR, W) \
   X(UNC_SIG_AFTER_PUSH, A) \
   X(UNC_SIG_EARLY, C) \
